@@ -306,7 +306,7 @@ def generic_problems(env, src, out, inner, status):
         probs.append(("exception-escaped", f"exception escaped into the scheduler: {env.sched.escaped[0][1]!r}"))
     e = L.error_identity_problem(src, [x[3] for x in inner])
     if e:
-        probs.append(("terminal-kind", e))
+        probs.append(("error-identity", e))
     return probs
 
 
@@ -324,7 +324,7 @@ def judge_window(rule, p, tl):
         skip = p["skip"] if p["skip"] is not None else p["count"]
         cp = count_problem(p["count"], skip, elems, term, observed, L.rt(t0), H)
         if cp:
-            probs.append(cp)
+            probs.append((cp[0], f"observed {L.show_segs(observed)}: {cp[0]}: {cp[1]}"))
     else:
         model = model_for(rule, p, t0)
         judged = observed
@@ -343,7 +343,7 @@ def judge_window(rule, p, tl):
                 dev = model_for(rule, p, t0, ignore_completion=True)
                 if L.admissible(dev, src_ev, observed, t0, H):
                     label = "open-windows-not-ended-by-source-completion"
-            probs.append((label, f"observed {L.show_segs(judged)}; not admitted by the rule, e.g. {L.show_segs(exp)}"))
+            probs.append((label, f"observed {L.show_segs(judged)}; not admitted by the rule ({label}), e.g. {L.show_segs(exp)}"))
     closed_by_rule = any(s[3] is not None and (term is None or s[3] < term[0]) for s in observed)
     nontrivial = bool(elems) and (len(observed) >= 2 or closed_by_rule)
     return probs, observed, nontrivial, tie, (out, inner)
@@ -400,7 +400,7 @@ def judge_buffer(rule, p, tl, win=None):
         probs.append(("differs-from-windows", f"buffers {show_buf(act)} but the windows of the window form give {show_buf(exp)}"))
     term = rec.terminal()
     if term and term[2] == "E" and not any(term[3] is e for e in src.errors.values()):
-        probs.append(("terminal-kind", f"buffer ended with {term[3]!r}, not the source's error"))
+        probs.append(("error-identity", f"buffer ended with {term[3]!r}, not the source's error"))
     nontrivial = sum(1 for e in exp if e[1] == "N" and e[2][1]) >= 1 and sum(1 for e in exp if e[1] == "N") >= 2
     return probs, act, nontrivial
 
@@ -530,7 +530,14 @@ def all_cases(tier, seed):
             yield rule, p, tl
 
 
+# first-difference labels depend on the timeline, not on the defect: they stay in the text of the
+# violation, the signature only says that the window structure is not the rule's
+COLLAPSE = {"missing-window", "extra-window", "open-instant", "contents", "close-instant", "terminal-kind", "order", "key"}
+
+
 def signature(rule, p, form, label):
+    if label in COLLAPSE:
+        label = "windows-differ-from-rule"
     return f"{op_name(rule, form)}|{shape(rule, p)}|{label}"
 
 
